@@ -367,6 +367,13 @@ func genBindExpr(r *rand.Rand, n int, emit func(args ...string)) {
 	for _, t := range []string{"$", "$ p", "$\"a b\"", "$1", "$\"p\"", "$p$", "$$p", "a = $P", "$select", "$\"un", "$'p'"} {
 		emit(encStr(t), encParams(map[string]interface{}{"p": "v", "a b": int64(1), "1": true, "select": 2.5, "P": "upper"}), encLower(t), "r")
 	}
+	// a quoted placeholder name may itself begin with `$`: exactly one `$` is the marker
+	for _, t := range []string{"$\"$p\"", "a = $\"$p\"", "$\"$$p\" + 1", "f($\"$p\", $p)", "$\"$\"", "a = $\"$\" + $p"} {
+		for _, k := range kinds {
+			emit(encStr(t), encParams(map[string]interface{}{"p": k}), encLower(t), "r")
+			emit(encStr(t), encParams(map[string]interface{}{"p": k, "$p": "right", "$$p": int64(7), "$": true}), encLower(t), "r")
+		}
+	}
 	// an empty placeholder never binds, whatever is stored under the empty name
 	for _, t := range emptyPlaceholderTexts {
 		for _, k := range kinds {
@@ -379,7 +386,10 @@ func genBindExpr(r *rand.Rand, n int, emit func(args ...string)) {
 			if r.Intn(5) == 0 {
 				text += pick(r, []string{" + $", " = $\"\"", " AND $ = 1", " =~ $", " + f($)", " + $ + $p", " * $\"\" "})
 			}
-			emit(encStr(text), encParams(randParams(r, []string{"p", "q", "r", "a b", "1", ""})), encLower(text), "r")
+			if r.Intn(8) == 0 {
+				text += pick(r, []string{" + $\"$p\"", " = $\"$q\"", " AND $\"$$p\" = 1"})
+			}
+			emit(encStr(text), encParams(randParams(r, []string{"p", "q", "r", "a b", "1", "", "$p", "$q"})), encLower(text), "r")
 			continue
 		}
 		t := pick(r, bindTemplates)
